@@ -41,10 +41,12 @@ impl PatchTrait for PatchArm {
             ]
         } else {
             [
-                // ldr r9, [pc, #-0] ; Load pc + 8 into r9, so the target word
-                0xE51F9000,
-                // bx r9 ; Branch to the target function
-                0xE12FFF19,
+                // ldr ip, [pc, #-0] ; Load the word at pc + 8, so the target word, into ip (r12).
+                // ip is the intra-procedure-call scratch register: unlike r4-r11 the caller
+                // does not expect it to survive a call, and it carries no argument.
+                0xE51FC000,
+                // bx ip ; Branch to the target function
+                0xE12FFF1C,
                 // .word target
                 target.as_ptr() as u32,
             ]
